@@ -73,6 +73,10 @@ type HeadWithTime = (String, i64);
 
 const DEFAULT_REMOTE_NAME: &str = "origin";
 
+/// Name of the [SourceIndex] file at the root of a checkout. `fetch` writes it after everything
+/// else, so its presence also marks the checkout as complete.
+const SOURCE_INDEX_FILE_NAME: &str = ".forc_index";
+
 /// Everything needed to recognize a checkout in offline mode
 ///
 /// Since we are omitting `.git` folder to save disk space, we need an indexing file
@@ -207,7 +211,11 @@ impl source::Fetch for Pinned {
             let _guard = lock.write()?;
             #[cfg(fuellabs_sway_verif)]
             sway_utils::verif::fault("Fetch.locked")?;
-            if !repo_path.exists() {
+            // `fetch` checks the commit out in place at `repo_path` and writes the index file
+            // last, so a directory without it is what an interrupted fetch (crash, I/O error)
+            // left behind. Fetch again rather than build against a partial checkout; `fetch`
+            // removes the stale directory first.
+            if !repo_path.join(SOURCE_INDEX_FILE_NAME).is_file() {
                 println_action_green(
                     "Fetching",
                     &format!("{} {}", ansiterm::Style::new().bold().paint(ctx.name), self),
@@ -574,7 +582,7 @@ pub fn fetch(fetch_id: u64, name: &str, pinned: &Pinned) -> Result<PathBuf> {
         #[cfg(fuellabs_sway_verif)]
         sway_utils::verif::fault("fetch.write_index")?;
         fs::write(
-            path.join(".forc_index"),
+            path.join(SOURCE_INDEX_FILE_NAME),
             serde_json::to_string(&source_index)?,
         )?;
         #[cfg(fuellabs_sway_verif)]
@@ -704,7 +712,9 @@ where
                     // Get the path of the current repo
                     let repo_dir_path = repo_dir.path();
                     // Get the index file from the found path
-                    if let Ok(index_file) = fs::read_to_string(repo_dir_path.join(".forc_index")) {
+                    if let Ok(index_file) =
+                        fs::read_to_string(repo_dir_path.join(SOURCE_INDEX_FILE_NAME))
+                    {
                         let index = serde_json::from_str(&index_file)?;
                         f(index, repo_dir_path)?;
                     }
